@@ -109,7 +109,7 @@ CONF = {
         "level": "fault_enumeration",
         "crash_is_violation": True,
         "tiers": tiers(8, 1500, 16, 20000),
-        "require_classes": ["refresh:manual", "refresh:autoinj", "refresh:autort", "fault:filler", "fault:extender", "fault:output", "fault:termsize", "others-sync", "hold", "two-faults-fired"],
+        "require_classes": ["refresh:manual", "refresh:autoinj", "refresh:autort", "fault:filler", "fault:extender", "fault:output", "fault:termsize", "others-sync", "hold", "two-faults-fired", "slow-debug-output"],
     },
     "C16": {
         "rule": "cases = scenarios drawn from the generators of C01 (concurrent clients, n>q, sync decorators), C15 (render faults at every site), C14 (cancel/Shutdown as a step) and C03 (auto refresh with early refresh, pop, queued bars), each run 1-4 times in a row in one process, followed by a goroutine-dump poll; non-trivial = auto refresh, a fired fault, a cancel or a notifier was involved; distinct by FNV-64 of the scenario JSON",
@@ -140,7 +140,7 @@ CONF = {
         "rule": "cases = sequential programs on 1-3 bars that continue after the terminal event: Abort on bars at or below total, bars with total<=0, non-decreasing increments/SetCurrent, SetTotal, EnableTriggerComplete and further Aborts after abort or completion, getters, Bar.Wait, render cycles, cancel/Shutdown anywhere; refresh none, manual, injected auto (bar goroutine survives the terminal event) and a real ticker; non-trivial = >=1 mutator issued after the terminal event and >=1 read after it; distinct by FNV-64 of the scenario JSON",
         "assumptions": GO_ASSUME + SCHED_ASSUME + ["observations are ordered per observer (one client goroutine; frames in output order)", "updates after completion are generated non-decreasing only, as the statement requires", "hangs are left to C01"],
         "tiers": tiers(8, 2500, 16, 60000),
-        "require_classes": ["refresh:none", "refresh:manual", "refresh:autoinj", "refresh:autort", "mutator-after-abort", "mutator-after-complete", "cancelled", "add-after-cancel", "concurrent-getters"],
+        "require_classes": ["refresh:none", "refresh:manual", "refresh:autoinj", "refresh:autort", "mutator-after-abort", "mutator-after-complete", "cancelled", "add-after-cancel", "concurrent-getters", "getters-after-bar-wait"],
     },
     "C04": {
         "rule": "cases = clocked scenarios (manual refresh) on byte buffers and on ptys of 2-8 rows x 40-100 columns: bars added, removed, popped, queued, extended with 1-3 extra rows above or below, text written between frames, render delay, bar counts below/at/above the height; plus non-terminal containers without refresh; every chunk is fed to the VT emulator and the screen+scrollback compared with persisted lines ++ rows of the frame; non-trivial = >=3 frames and (row counts differ, or a frame within one row of the height, or text between frames); distinct by FNV-64 of the scenario JSON",
@@ -158,7 +158,7 @@ CONF = {
         "rule": "cases = sequential scenarios (container config, 1-7 bar specs, program of add/incr/set/abort/priority/write/tick/cancel steps) drawn by rapid; non-trivial = >=3 frames and >=1 change of the displayed set between frames; distinct by FNV-64 of the scenario JSON",
         "assumptions": GO_ASSUME + SCHED_ASSUME + ["one output Write call = one frame (cwriter flushes its buffer with a single Write)", "exact frame model only for manual refresh, sequential client and queue length > number of bars; otherwise history invariants"],
         "tiers": tiers(8, 1500, 16, 40000),
-        "require_classes": ["exact-model", "membership-change", "pop", "refresh:autoinj", "clipped", "render-fault", "q<n", "concurrent-adders", "add-before-cycle-checked"],
+        "require_classes": ["exact-model", "membership-change", "pop", "refresh:autoinj", "clipped", "render-fault", "q<n", "concurrent-adders", "add-before-cycle-checked", "frame-fills-buffer-height"],
     },
     "C17": {
         "rule": "cases = sequential scenarios with BarQueueAfter links (70% of bars), chains, pop mode, removal, aborts, manual and injected auto refresh; non-trivial = a successor created after its predecessor finished, or a predecessor with >=2 successors, or a chain of >=3; distinct by FNV-64 of the scenario JSON",
